@@ -1,6 +1,8 @@
 import Srctools.Wire
 import Srctools.Model.C11
 import Srctools.Gen.Bspfmt
+import Srctools.Model.C11Ent
+import Srctools.Gen.Tok
 /-! Driver for the C11 models (struct codec, RLE, index builders, lump encoders).
 requests (bytes are arrays of 0..255, text arrays of code points):
   {"op":"rle_enc","d":[b…]}                              → {"r":[b…]}
@@ -18,6 +20,8 @@ requests (bytes are arrays of 0..255, text arrays of code points):
   {"op":"name","fn":string,"name":[b…]}                  → {"r":[b…]} | {"err":e}        128s dictionary entry of that writer
   {"op":"prop","version":[cp…],"vals":[v…]}              → {"r":[b…],"size":n} | {"err":e}  one static-prop record (writer segments)
   {"op":"prop_read","version":[cp…],"d":[b…]}            → {"vals":[v…]} | {"err":e}       (reader segments)
+  {"op":"ent_write","ents":[[[key cps],[value cps],raw]…]…]} → {"r":[cp…]}                   entity lump text
+  {"op":"ent_read","s":[cp…]}                            → {"ents":[[[key],[value],kind]…]…]} | {"err":…}
   {"op":"gen"}                                           → facts extracted from the source
 -/
 open Lean StructCodec C11
@@ -231,6 +235,25 @@ def handle (j : Json) : Except String Json := do
       match unpack fmt d with
       | .ok vs => pure (Json.mkObj [("vals", Json.arr (vs.map ofVal).toArray)])
       | .error e => pure (errJson (structErr e))
+  | "ent_write" =>
+    let entsJ ← (← j.getObjVal? "ents").getArr?
+    let ents ← entsJ.toList.mapM fun e => do
+      let ls ← e.getArr?
+      ls.toList.mapM fun l => do
+        let a ← l.getArr?
+        if a.size != 3 then throw "line: need [key, value, raw]"
+        let k ← Wire.strOfCodes a[0]!
+        let v ← Wire.strOfCodes a[1]!
+        let r ← (a[2]!).getBool?
+        pure ({ key := k, value := v, raw := r } : C11Ent.Line)
+    pure (Json.mkObj [("r", Wire.codesOfStr (C11Ent.entWrite Gen.Tok.tables ents))])
+  | "ent_read" =>
+    let s ← Wire.strOfCodes (← j.getObjVal? "s")
+    match C11Ent.entRead Gen.Tok.tables (fun c => [c]) s with
+    | .ok ents =>
+      pure (Json.mkObj [("ents", Json.arr (ents.map (fun e => Json.arr (e.map (fun l =>
+        Json.arr #[Wire.codesOfStr l.key, Wire.codesOfStr l.value, Json.num (JsonNumber.fromNat l.kind)])).toArray)).toArray)])
+    | .error e => pure (errJson (reprStr e))
   | "gen" =>
     pure (Json.mkObj [
       ("findOrExtendBounded", Json.bool Gen.Bspfmt.findOrExtendBounded),
